@@ -1,7 +1,7 @@
 (* C09 — a successful unlocked vet leaves files with which a --locked vet succeeds;
    a failing run leaves the store unchanged. *)
 Require Import Base Extracted Criteria Search AuditGraph DepGraph Resolve Update Commands.
-Require Import UpdateProofs UpdateKeep.
+Require Import UpdateProofs UpdateKeep EndToEnd.
 Local Open Scope N_scope.
 
 (* a run that fails writes nothing (the shape of cmd_check — commit only in the
@@ -33,15 +33,19 @@ Theorem C09_required_publisher_kept : forall t mode ing rm ps i p,
   In (clear_pub p) (pu_publishers (update_pkg t mode ing (Some rm) ps)).
 Proof. exact kept_publisher. Qed.
 
-(* NOT YET PROVED in this revision (kept visible, see DESIGN.md §4 C09): the
-   end-to-end statement
-     cmd_check false inp s = Some s' -> has_errors (resolve inp s') = false
-   i.e. that the kept entries re-assemble into certifying chains in the written
-   store for every required criterion.  It is exercised on every history of the
-   correspondence run by the real `cargo vet --locked` on the written files. *)
+(* END TO END: whenever the unlocked check succeeds and commits a store s1, the locked check of
+   s1 succeeds — for every graph, criteria table and (loaded) store.  [store_ok] = acyclic criteria
+   table, exemption criteria defined, an entry per crate name (what Store::validate and the
+   loader guarantee; its executable form is evaluated on every store the real commands load).
+   The model's update already clears the freshness flags, which is what reloading imports.lock
+   does. *)
+Theorem C09_locked_check_succeeds_after_unlocked_check : forall inp s s1,
+  store_ok inp s -> cmd_check false inp s = Some s1 -> has_errors (resolve inp s1) = false.
+Proof. exact check_then_locked. Qed.
 
 Print Assumptions C09_failing_run_writes_nothing.
 Print Assumptions C09_required_local_audit_kept.
 Print Assumptions C09_required_imported_audit_kept.
 Print Assumptions C09_required_wildcard_kept.
 Print Assumptions C09_required_publisher_kept.
+Print Assumptions C09_locked_check_succeeds_after_unlocked_check.
